@@ -1,6 +1,8 @@
 (* C09 -- property theorems only. `table` is regenerated from /repo on every run. *)
 From Coq Require Import List Bool.
-From Molli Require Import Model.Dispatch Proofs.Dispatch Gen.DispatchTable.
+From Coq Require Import Arith.
+Import ListNotations.
+From Molli Require Import Model.Dispatch Proofs.Dispatch Gen.DispatchTable Model.DispatchSeq Proofs.DispatchSeq.
 
 (* On EVERY valid configuration (verb x format class x explicit/suffix x output type x name x
    source/target kind x parser spelling) the entry point does exactly what the specification
@@ -22,4 +24,97 @@ Example C09_matrix_nonvacuous :
   existsb (fun c => match spec c with ARet (RCall _ _ _ _) => true | _ => false end) all_cells = true /\
   existsb (fun c => match spec c with AWrote _ SGivenStream true => true | _ => false end) all_cells = true /\
   existsb (fun c => match spec c with ARaise _ => true | _ => false end) all_cells = true.
+Proof. vm_compute. repeat split; reflexivity. Qed.
+
+(* ------------------------------------------------------------------------------------------
+   Histories: the entry points called one after another in one process while the file / the
+   string / the object / the stream change in between (Model/DispatchSeq.v).  The recorded
+   histories of the implementation are compared with `run` by the correspondence shards
+   (`check_seq`, sound by C09_seq_check_sound); the theorems below say what `run` guarantees. *)
+
+(* in EVERY history, at EVERY position, a call does what the one-shot matrix says for its cell *)
+Theorem C09_seq_action_is_spec : forall w p i c slot o v md,
+  nth_error p i = Some (OCall c slot o v md) ->
+  exists ob, nth_error (run w p) i = Some ob /\ fst (ob_res ob) = spec c.
+Proof. exact run_action_is_spec. Qed.
+Print Assumptions C09_seq_action_is_spec.
+
+(* NO HIDDEN STATE: two arbitrary histories (from arbitrary worlds) that leave the addressed file
+   with the same content cannot be told apart by the next call: same action, same text handed to
+   the class-level codec. *)
+Theorem C09_seq_no_hidden_state : forall w1 w2 p1 p2 c slot o v md,
+  get_file (final w1 p1) (fkey_of c slot) = get_file (final w2 p2) (fkey_of c slot) ->
+  snd (step (final w1 p1) (OCall c slot o v md)) = snd (step (final w2 p2) (OCall c slot o v md)).
+Proof. exact history_independence. Qed.
+Print Assumptions C09_seq_no_hidden_state.
+
+(* call, rewrite the file, call again: the class-level reader is handed the NEW document *)
+Theorem C09_seq_load_after_rewrite : forall w pre c slot o v md d r,
+  is_load c = true -> spec c = ARet r ->
+  snd (step (final w (pre ++ [ORewrite (fkey_of c slot) d])) (OCall c slot o v md)) = (ARet r, Some [TDoc d]).
+Proof. exact load_after_rewrite. Qed.
+Print Assumptions C09_seq_load_after_rewrite.
+
+(* the string loaders are handed the string given NOW; dumps renders the object as it is NOW *)
+Theorem C09_seq_loads_dumps_current : forall w c slot o v md,
+  (forall r, is_loads c = true -> spec c = ARet r ->
+     snd (step w (OCall c slot o v md)) = (ARet r, Some [TDoc slot])) /\
+  (forall m, c_verb c = VDumps -> spec c = ARet (RDumps m) ->
+     snd (step w (OCall c slot o v md)) = (ARet (RDumps m), Some [TW m o v])).
+Proof. intros; split; intros; [apply loads_sees_given_string | apply dumps_renders_current_object]; assumption. Qed.
+Print Assumptions C09_seq_loads_dumps_current.
+
+(* dump to a path then load that path, after any history *)
+Theorem C09_seq_load_after_dump : forall w pre cd cl slot o v md o' v' md' m r,
+  c_verb cd = VDump -> spec cd = AWrote m SOpenedPath true ->
+  is_load cl = true -> spec cl = ARet r -> fkey_of cl slot = fkey_of cd slot ->
+  snd (step (final w (pre ++ [OCall cd slot o v md])) (OCall cl slot o' v' md'))
+  = (ARet r, Some ((match md with MAppend => get_file (final w pre) (fkey_of cd slot) | MTrunc => [] end) ++ [TW m o v])).
+Proof. exact load_after_dump. Qed.
+Print Assumptions C09_seq_load_after_dump.
+
+(* dump after dump to the same path: appending keeps the first record, mode="w" drops it;
+   a stream target is appended to *)
+Theorem C09_seq_dump_after_dump : forall w c slot o v o' v' md' m,
+  c_verb c = VDump -> spec c = AWrote m SOpenedPath true ->
+  get_file (final w [OCall c slot o v MTrunc; OCall c slot o' v' md']) (fkey_of c slot)
+  = match md' with MAppend => [TW m o v; TW m o' v'] | MTrunc => [TW m o' v'] end.
+Proof. exact dump_after_dump. Qed.
+Print Assumptions C09_seq_dump_after_dump.
+
+Theorem C09_seq_dump_stream : forall w c slot o v md m,
+  c_verb c = VDump -> spec c = AWrote m SGivenStream true ->
+  get_stream (fst (step w (OCall c slot o v md))) slot = get_stream w slot ++ [TW m o v].
+Proof. exact dump_stream_effect. Qed.
+Print Assumptions C09_seq_dump_stream.
+
+(* frame: a call touches no file and no stream other than the one it addresses; only dump writes *)
+Theorem C09_seq_frame : forall w c slot o v md,
+  (forall k, k <> fkey_of c slot -> get_file (fst (step w (OCall c slot o v md))) k = get_file w k) /\
+  (forall s, s <> slot -> get_stream (fst (step w (OCall c slot o v md))) s = get_stream w s) /\
+  (c_verb c <> VDump -> fst (step w (OCall c slot o v md)) = w).
+Proof.
+  intros; split; [|split]; intros;
+    [apply call_frame_files | apply call_frame_streams | apply non_dump_leaves_world]; assumption.
+Qed.
+Print Assumptions C09_seq_frame.
+
+Theorem C09_seq_check_sound : forall sc, check_seq sc = true -> run (sc_init sc) (sc_prog sc) = sc_obs sc.
+Proof. exact check_seq_sound. Qed.
+Print Assumptions C09_seq_check_sound.
+
+(* non-vacuity: load / rewrite / load_all / dump (append) / load on one file; the hypotheses of the
+   theorems above are met by concrete cells *)
+Example C09_seq_nonvacuous :
+  let cl := mk_cell VLoad FCdxml FsSuffix OMol false TPath PMolli false in
+  let ca := mk_cell VLoadAll FXyz FsSuffix OMol true TPathObj PMolli false in
+  let cd := mk_cell VDump FXyz FsSuffix OMol false TPath PMolli false in
+  let k := fkey_of cl 0 in
+  let w := mk_world [(k, [TDoc 1]); (fkey_of cd 0, [TDoc 5])] [(0, [])] in
+  is_load cl = true /\ spec cl = ARet (RCtor KMol 0 NNone) /\
+  spec cd = AWrote (VDump, FXyz) SOpenedPath true /\ fkey_of ca 0 = fkey_of cd 0 /\
+  map (fun ob => snd (ob_res ob))
+      (run w [OCall cl 0 0 0 MAppend; ORewrite k 2; OCall cl 0 0 0 MAppend;
+              OCall cd 0 7 3 MAppend; OCall ca 0 0 0 MAppend])
+  = [Some [TDoc 1]; None; Some [TDoc 2]; None; Some [TDoc 5; TW (VDump, FXyz) 7 3]].
 Proof. vm_compute. repeat split; reflexivity. Qed.
